@@ -7,7 +7,8 @@ Independent confirmation of a seeded change before it is kept under
   2. the repository's own suite (build tag off) still passes with it
      (tools/baseline.py: every stable-pass test of BASELINE.json passes in
      one of two runs),
-  3. the demonstration fails with the patch,
+  3. the demonstration fails with the patch (3 of 3 runs, or at least 4 of
+     6 for a schedule-dependent one),
   4. the demonstration passes without it (3 runs).
 Prints a JSON verdict; exit 0 when all four hold."""
 import json, os, shutil, subprocess, sys, tempfile
@@ -58,13 +59,20 @@ try:
         shutil.copyfile(src, dst)
         copied.append(dst)
     run = demo.get("run", "")
-    fails = 0
-    for i in range(3):
+    # three runs; a schedule-dependent demonstration that missed once or
+    # twice (the machine is busy with other checks) gets three more, and
+    # counts when it fails in at least four of the six
+    fails, runs = 0, 0
+    for i in range(6):
+        if i == 3 and fails == 3:
+            break
         rc, out = sh(run, cwd=wt, timeout=1200)
+        runs += 1
         fails += rc != 0
-        if i == 0:
+        if rc != 0 and "demo_with_patch_tail" not in verdict:
             verdict["demo_with_patch_tail"] = out.strip().splitlines()[-8:]
-    verdict["demo_fails_with_patch"] = "%d/3" % fails
+    verdict["demo_fails_with_patch"] = "%d/%d" % (fails, runs)
+    demo_ok = fails == runs or fails >= 4
     sh("git apply -R %s/patch.diff" % d, cwd=wt)
     passes = 0
     for i in range(3):
@@ -73,7 +81,7 @@ try:
         if rc != 0:
             verdict["demo_without_patch_tail"] = out.strip().splitlines()[-8:]
     verdict["demo_passes_without_patch"] = "%d/3" % passes
-    verdict["ok"] = bool(verdict["builds"] and verdict["suite_passes_with_patch"] and fails == 3 and passes == 3 and not verdict["touches_tests"])
+    verdict["ok"] = bool(verdict["builds"] and verdict["suite_passes_with_patch"] and demo_ok and passes == 3 and not verdict["touches_tests"])
 except StopIteration:
     verdict["ok"] = False
 finally:
